@@ -228,21 +228,45 @@ def at_rule(F, rep, rid, exempt, enum_exempt=()):
     return n_sites
 
 
-def nonvacuity_rule(F, rep, rid):
-    """std::all_of over a string accepts the empty range: the ranged string must be known non-empty after its last mutation."""
-    n_sites = 0
-    for f in sorted(F.funcs.values(), key=lambda f: (f.file, f.line)):
-        if not f.file.endswith('utilities.cpp') and not f.file.endswith('xmlnode.cpp'):
-            continue
-        for n in f.walk():
-            if not (n.get('k') == 'Call' and n.get('callee') in ('std::all_of',)):
-                continue
+def string_verdicts(f):
+    """"Every character of string X satisfies P" verdicts: std::all_of(X.begin(), X.end(), P), or the same thing written as a loop
+    (`for (c : X) if (!P(c)) return false;` followed by `return true`).  Yields (site node, X node, name of P)."""
+    for n in f.walk():
+        if n.get('k') == 'Call' and n.get('callee') in ('std::all_of',):
             a0 = n['c'][0] if n.get('c') else None
             if a0 is None or not (a0.get('k') == 'Call' and a0.get('fn') in ('begin', 'cbegin')):
                 continue
             x = receiver(a0)
             if x is None or 'basic_string' not in x.get('t', ''):
                 continue
+            yield n, x, (render(n['c'][2]) if len(n['c']) > 2 else '')
+        elif n.get('k') == 'RangeFor' and f.enclosing_lambda(n) is None:
+            rng = role(n, 'range')
+            while rng is not None and rng.get('k') in ('Cast', 'Construct', 'Paren') and len(rng.get('c', [])) == 1:
+                rng = rng['c'][0]
+            if rng is None or rng.get('k') != 'Ref' or 'basic_string' not in (rng.get('t') or ''):
+                continue
+            body = role(n, 'body')
+            rets = [r for r in walk(body) if r.get('k') == 'Return' and r.get('c') and r['c'][0].get('k') == 'Bool' and not r['c'][0].get('v')]
+            if not rets:
+                continue
+            # the statement after the loop returns true
+            par = f.parent(n)
+            sibs = par.get('c', []) if par is not None else []
+            nxt = sibs[sibs.index(n) + 1] if n in sibs and sibs.index(n) + 1 < len(sibs) else None
+            if nxt is None or nxt.get('k') != 'Return' or not nxt.get('c') or nxt['c'][0].get('k') != 'Bool' or not nxt['c'][0].get('v'):
+                continue
+            preds = [c.get('fn') for cnd, br, st in __import__('engines').enclosing_conditions(f, rets[0]) for c in walk(cnd) if c.get('k') == 'Call' and c.get('fn') and any(a is n for a in f.ancestors(st))]
+            yield nxt, rng, (preds[0] if preds else '')   # facts are taken where the verdict `true` is returned
+
+
+def nonvacuity_rule(F, rep, rid):
+    """std::all_of over a string accepts the empty range: the ranged string must be known non-empty after its last mutation."""
+    n_sites = 0
+    for f in sorted(F.funcs.values(), key=lambda f: (f.file, f.line)):
+        if not f.file.endswith('utilities.cpp') and not f.file.endswith('xmlnode.cpp'):
+            continue
+        for n, x, _pred in string_verdicts(f):
             n_sites += 1
             xn = render(x)
             key = '%s|all_of(%s)' % (f.short, xn)
